@@ -458,11 +458,17 @@ class Tdf:
 
         # delete entry
         self.entries.remove(oldEntry)
-        self.handler.seek(64 + 288 * oldEntryPos, 0)
-        # update all the offsets of the entries preceding the removed one
-        for entry in self.entries[oldEntryPos:]:
-            entry.offset -= oldEntry.size
-            entry._write(self.handler)
+        # every entry whose data lies behind the removed block moves up by its size,
+        # wherever that entry sits in the table (blocks need not be stored in table
+        # order); the entries behind the removed one also move up one slot
+        for n, entry in enumerate(self.entries):
+            behind = entry.offset >= oldEntry.offset + oldEntry.size
+            if behind:
+                entry.offset -= oldEntry.size
+            if behind or n >= oldEntryPos:
+                self.handler.seek(64 + 288 * n, 0)
+                entry._write(self.handler)
+        self.handler.seek(64 + 288 * len(self.entries), 0)
 
         # the new unused slot points at the end of the data that remains
         # (computed after the later entries have been shifted down)
